@@ -197,6 +197,7 @@ pub fn run_exec<S: AS>(seed: u64, sseed: u64, mode: Mode, exec_no: u64) -> AccOu
         let s = match srng.below(4) {
             0 => Strat::Pct { d: srng.range(1, 3) as u32, horizon: (nt * nops * 30) as u64 },
             1 => Strat::Adversary { victim: 0, k: srng.range(1, 2) as u32, p: *srng.pick(&[4, 8, 16]) },
+            2 => Strat::Windows { p_in: 12, p_out: 1 },
             _ => Strat::Random { sw: *srng.pick(&[2, 4, 8, 16]) },
         };
         sched::token_prepare(nt, sseed, s, false);
